@@ -128,8 +128,10 @@ func (w *rw) stop() {
 	// a retry timer of an object that is neither cached nor on the wait list any more cannot be
 	// reached from here: if it fires later it finds fresh buffered channels, not closed ones
 	oldV, oldF := s.validateCh, s.finalizeCh
-	s.validateCh = make(chan *finalFile, 4096)
-	s.finalizeCh = make(chan *finalFile, 4096)
+	if os.Getenv("VERIF_RACE") == "" {
+		s.validateCh = make(chan *finalFile, 4096)
+		s.finalizeCh = make(chan *finalFile, 4096)
+	}
 	close(oldV)
 	close(oldF)
 	w.lg.VerifClose()
